@@ -154,7 +154,8 @@ class ZbossNcpProtocol(asyncio.Protocol):
                 if ack_seq == self._pack_seq:
                     # Calculate next sequence number
                     self._pack_seq = self._pack_seq % 3 + 1
-                    self._ack_received_event.set()
+                    if self._ack_received_event is not None:
+                        self._ack_received_event.set()
                 continue
 
             # Acknowledge the received frame
